@@ -12,7 +12,9 @@ use std::io::Cursor;
 
 #[derive(Clone, Debug)]
 pub struct E {
-    /// 0 file, 1 directory, 2 symlink
+    /// 0 file, 1 directory, 2 symlink; neighbours of another making (they sit between the entries the statement names, and
+    /// what is judged of them is name, content, sizes and CRC): 3 a raw copy of `neighbour_source()`'s entry under this name
+    /// (`content` holds that entry's content), 4 a file with a shared extra-data block, 5 a file aligned to 64 bytes
     pub kind: u8,
     pub name: String,
     /// file content, or symlink target bytes (UTF-8)
@@ -37,6 +39,14 @@ impl E {
         match self.kind {
             0 => vec![Call::StartFile { name: self.name.clone(), opts: self.opts.clone() }, Call::Write(self.content.clone())],
             1 => vec![Call::AddDir { name: self.name.clone(), opts: self.opts.clone() }],
+            3 => vec![Call::RawCopy { src: 0, idx: 0, rename: Some(self.name.clone()), raw_open: false }],
+            4 => vec![
+                Call::StartExtra { name: self.name.clone(), opts: self.opts.clone() },
+                Call::Write(crate::reference::zipbuild::extra_block(0xbeef, b"c01 neighbour")),
+                Call::EndExtra,
+                Call::Write(self.content.clone()),
+            ],
+            5 => vec![Call::StartAligned { name: self.name.clone(), opts: self.opts.clone(), align: 64 }, Call::Write(self.content.clone())],
             _ => vec![Call::AddSymlink {
                 name: self.name.clone(),
                 target: String::from_utf8_lossy(&self.content).into_owned(),
@@ -59,12 +69,22 @@ impl E {
         }
     }
     pub fn expected_method(&self) -> u16 {
-        if self.kind == 0 {
-            self.opts.method
-        } else {
-            0
+        match self.kind {
+            0 | 4 | 5 => self.opts.method,
+            3 => 8,
+            _ => 0,
         }
     }
+    pub fn kind_name(&self) -> &'static str {
+        ["file", "dir", "symlink", "raw-copy", "file+extra", "file-aligned"][(self.kind as usize).min(5)]
+    }
+}
+
+/// The archive that raw-copy neighbours are taken from (reference builder: one deflated entry), and that entry's content.
+pub fn neighbour_source() -> (Vec<u8>, Vec<u8>) {
+    use crate::reference::zipbuild::{build, ESpec, Spec};
+    let content: Vec<u8> = (0..3000u32).map(|i| b'a' + (i % 7) as u8 + ((i / 500) as u8)).collect();
+    (build(&Spec { entries: vec![ESpec { name: b"source/entry.bin".to_vec(), method: 8, content: content.clone(), ..Default::default() }], ..Default::default() }).0, content)
 }
 
 pub fn regen_content(n: usize, seed: u64) -> Vec<u8> {
@@ -95,6 +115,14 @@ impl Program {
             entries: v["entries"].as_array().map(|a| a.iter().map(|e| E::from_json(e, seed)).collect()).unwrap_or_default(),
             comment: if v["comment"].is_null() { None } else { Some(bytes_from_json(&v["comment"], &regen)) },
             comment_last: v["comment_last"].as_bool().unwrap_or(false),
+        }
+    }
+    /// the source archives the program's raw copies read from (none unless an entry of kind 3 is present)
+    pub fn sources(&self) -> Vec<Vec<u8>> {
+        if self.entries.iter().any(|e| e.kind == 3) {
+            vec![neighbour_source().0]
+        } else {
+            vec![]
         }
     }
     pub fn calls(&self, finish: bool) -> Vec<Call> {
@@ -129,7 +157,8 @@ pub fn check_program(p: &Program, st: &mut Stats, order: u64, part: &str) -> Opt
     st.evals += 1;
     let case = || json!({"kind": "program", "program": p.to_json()});
     let calls_f = p.calls(true);
-    let (res_f, bytes_f) = exec(&calls_f, &[]);
+    let srcs = p.sources();
+    let (res_f, bytes_f) = exec(&calls_f, &srcs);
     for (c, r) in calls_f.iter().zip(&res_f) {
         match r {
             Res::Ok(_) => {}
@@ -152,7 +181,7 @@ pub fn check_program(p: &Program, st: &mut Stats, order: u64, part: &str) -> Opt
         }
     }
     let calls_d = p.calls(false);
-    let (res_d, bytes_d) = exec(&calls_d, &[]);
+    let (res_d, bytes_d) = exec(&calls_d, &srcs);
     if let Some((c, r)) = calls_d.iter().zip(&res_d).find(|(_, r)| !r.is_ok()) {
         st.class("drop-variant-failed");
         st.viol(
@@ -202,7 +231,7 @@ pub fn check_program(p: &Program, st: &mut Stats, order: u64, part: &str) -> Opt
             return;
         }
         let d = match e {
-            Some(e) => format!("{}:{}", ["file", "dir", "symlink"][e.kind.min(2) as usize], mname(e.expected_method())),
+            Some(e) => format!("{}:{}", e.kind_name(), mname(e.expected_method())),
             None => "archive".to_string(),
         };
         st.viol(format!("readback/{field}/{d}"), format!("{detail} [{part}]"), case(), order);
@@ -234,12 +263,12 @@ pub fn check_program(p: &Program, st: &mut Stats, order: u64, part: &str) -> Opt
             ok = false;
             bad("method", Some(e), format!("method {} read back as {}", e.expected_method(), o.method), st);
         }
-        if (o.date, o.time) != (e.opts.date, e.opts.time) {
+        if e.kind != 3 && (o.date, o.time) != (e.opts.date, e.opts.time) {
             ok = false;
             bad("timestamp", Some(e), format!("DOS stamp ({:#06x},{:#06x}) read back as ({:#06x},{:#06x})", e.opts.date, e.opts.time, o.date, o.time), st);
         }
-        let want_mode = expected_mode(e.kind, e.opts.perm);
-        if o.mode != Some(want_mode) {
+        let want_mode = expected_mode(if e.kind >= 3 { 0 } else { e.kind }, e.opts.perm);
+        if e.kind != 3 && o.mode != Some(want_mode) {
             ok = false;
             bad("unix_mode", Some(e), format!("unix mode {:o} read back as {:?} (octal {})", want_mode, o.mode, o.mode.map(|m| format!("{m:o}")).unwrap_or_default()), st);
         }
@@ -285,12 +314,12 @@ pub fn check_program(p: &Program, st: &mut Stats, order: u64, part: &str) -> Opt
     // the same program with every FileOptions setter called twice (another value first) and with every write handed over
     // through write_vectored: byte-identical archives
     if rich && p.entries.len() < 1000 && bytes_f.len() < 100_000 {
-        let (r2, b2) = with_setters_twice(|| exec(&calls_f, &[]));
+        let (r2, b2) = with_setters_twice(|| exec(&calls_f, &srcs));
         if r2 != res_f || b2 != bytes_f {
             ok = false;
             bad("options-set-twice", None, "with every FileOptions setter called twice (the earlier value first) the archive differs".into(), st);
         }
-        let (r3, b3) = with_vectored_writes(|| exec(&calls_f, &[]));
+        let (r3, b3) = with_vectored_writes(|| exec(&calls_f, &srcs));
         if r3 != res_f || !same_archive_modulo_compression(&b3, &bytes_f) {
             ok = false;
             bad("write_vectored", None, "with the contents handed over through write_vectored the archive differs (in more than the compressed form)".into(), st);
@@ -301,7 +330,7 @@ pub fn check_program(p: &Program, st: &mut Stats, order: u64, part: &str) -> Opt
     if matches!(part, "method-level" | "size-neutral-contents" | "comments") && bytes_f.len() < 3_000 {
         use crate::sio::inst::{plan, Dev, Kind};
         let p0 = plan();
-        let (rb, bb) = with_vectored_writes(|| exec_plan(&calls_f, &[], p0.clone()));
+        let (rb, bb) = with_vectored_writes(|| exec_plan(&calls_f, &srcs, p0.clone()));
         let kinds = p0.borrow().kinds.clone();
         if rb.iter().all(|r| r.is_ok()) {
             for (k, kind) in kinds.iter().enumerate() {
@@ -311,13 +340,30 @@ pub fn check_program(p: &Program, st: &mut Stats, order: u64, part: &str) -> Opt
                 let pk = plan();
                 pk.borrow_mut().record_kinds = false;
                 pk.borrow_mut().devs.insert(k as u64, Dev::Interrupted);
-                let (rk, bk) = with_vectored_writes(|| exec_plan(&calls_f, &[], pk));
+                let (rk, bk) = with_vectored_writes(|| exec_plan(&calls_f, &srcs, pk));
                 st.evals += 1;
                 // an Interrupted that a compressor back end hands on as an error is "an error reported": not judged
                 if rk.iter().all(|r| r.is_ok()) && !same_archive_modulo_compression(&bk, &bb) {
                     ok = false;
                     bad("write_vectored+interrupted", None, format!("contents handed over through write_vectored, sink write call {k} answered Interrupted once and was retried: every call succeeded but the archive differs from the uninterrupted one"), st);
                     break;
+                }
+                // the same interruption, the writer completed by drop instead of finish() (plain writes): identical bytes
+                if rk.iter().all(|r| r.is_ok()) {
+                    let mk = || {
+                        let pk = plan();
+                        pk.borrow_mut().record_kinds = false;
+                        pk.borrow_mut().devs.insert(k as u64, Dev::Interrupted);
+                        pk
+                    };
+                    let (rf, bf) = exec_plan(&calls_f, &srcs, mk());
+                    let (rd, bd) = exec_plan(&calls_d, &srcs, mk());
+                    st.evals += 2;
+                    if rf.iter().all(|r| r.is_ok()) && rd.iter().all(|r| r.is_ok()) && bf != bd {
+                        ok = false;
+                        bad("finish-vs-drop/interrupted", None, format!("sink write call {k} answered Interrupted once (retried by the caller's write_all): finish() left {} bytes, drop left {} bytes", bf.len(), bd.len()), st);
+                        break;
+                    }
                 }
             }
         }
@@ -400,7 +446,7 @@ pub fn check_program(p: &Program, st: &mut Stats, order: u64, part: &str) -> Opt
         }
     }
     if ok {
-        let first = p.entries.first().map(|e| format!("{}:{}", ["file", "dir", "symlink"][e.kind.min(2) as usize], mname(e.expected_method()))).unwrap_or("empty".into());
+        let first = p.entries.first().map(|e| format!("{}:{}", e.kind_name(), mname(e.expected_method()))).unwrap_or("empty".into());
         st.class(&format!("roundtrip-ok/{}-entries/first={first}", p.entries.len()));
     } else {
         st.class("roundtrip-mismatch");
@@ -730,6 +776,36 @@ pub fn enumerate(thorough: bool, seed: u64, f: &(dyn Fn(&Program, u64, &str, &mu
         });
         total_stats.merge(s);
         bounds.insert("size_neutral_contents".into(), json!(neutral.iter().map(|(m, c)| format!("method {m}: {} bytes", c.len())).collect::<Vec<_>>()));
+    }
+    // (14) neighbours of another making: a raw copy, a file with extra data, an aligned file - before, after and between the
+    // entries the statement names; those must read back as written all the same (the writer carries per-entry state from one
+    // entry to the next)
+    {
+        let base = entry_alphabet(seed, 12);
+        let (_, src_content) = neighbour_source();
+        let nb = |kind: u8, k: usize| E {
+            kind,
+            name: format!("neighbour-{kind}-{k}"),
+            content: if kind == 3 { src_content.clone() } else { content_class(1 + k % 3, seed) },
+            opts: FOpts { method: [8u16, 0, 93][k % 3], level: None, date: tms[1].0, time: tms[1].1, perm: Some(0o640), large: k % 2 == 1, password: None },
+        };
+        let nbase = base.len();
+        let per = 2 * nbase + nbase * nbase;
+        let s = par_for((3 * per) as u64, 8, |i, st| {
+            let kind = 3 + (i as usize / per) as u8;
+            let j = i as usize % per;
+            let entries = if j < nbase {
+                vec![nb(kind, j), base[j].clone()]
+            } else if j < 2 * nbase {
+                vec![base[j - nbase].clone(), nb(kind, j)]
+            } else {
+                let q = j - 2 * nbase;
+                vec![base[q / nbase].clone(), nb(kind, q), base[q % nbase].clone()]
+            };
+            f(&Program { entries, comment: if j % 2 == 0 { None } else { Some(b"neighbours".to_vec()) }, comment_last: j % 4 == 1 }, (14 << 32) + i, "neighbours", st);
+        });
+        total_stats.merge(s);
+        bounds.insert("neighbours".into(), json!("{raw copy, file with a shared extra block, file aligned to 64} x {before each, after each, between every ordered pair} of the 12 base entries"));
     }
     // (9) entry counts around the 16-bit limit x comment variants (the end records change shape at 65536 entries)
     let counts = [65_534usize, 65_535, 65_536, 65_537];
